@@ -417,3 +417,129 @@ def liquidity_bookkeeping(S, D):
     S.no_panic(ids[1], E, pre, 'no arithmetic overflow within the bounds', [], only=lambda p: 'overflow' in p[1])
     S.witness(ids[2], E, pre + [present, old.t > 0, nf > 0], cont)
     S.validate(ids[3], E, b, n=1, extra_vectors=[(1,)])
+
+
+def derived_limits(S, D):
+    """C16.g: the two per-request quantities get_route derives once, before the search, and that every later check uses:
+    the internal CLTV budget and the minimal contribution of a path.  Region: from the branch on allow_mpp that
+    computes the minimal contribution to the statement that stores the CLTV budget."""
+    ids = ['C16.g.cltv_budget', 'C16.g.min_contribution', 'C16.g.nopanic', 'C16.g.witness', 'C16.g.validate']
+    if all(S._skip(o) for o in ids):
+        return
+    f = _get_route(S)
+    E = S.engine(unwind=1)
+    mem = {}
+    args = [E.sym('a%d' % n, t, mem) if t.startswith('&') else X.Opaque('arg%d' % n) for n, t in f.params]
+    run = X.FnRun(E, f, args, True, mem)
+    succ, rpo, back, encl = run.analyse_cfg()
+    PP = D.struct_fields('PaymentParameters')
+    lim_local = _local(f, 'max_total_cltv_expiry_delta')
+    minc_local = _local(f, 'minimal_value_contribution_msat')
+    end = [b for b, (body, t) in f.blocks.items() if t[0] == 'call' and t[1] == ('local', lim_local)]
+    divs = [b for b, (body, t) in f.blocks.items() if t[0] == 'call' and t[2].endswith('::div_ceil') and t[1] == ('local', minc_local)]
+    if len(end) != 1 or len(divs) != 1:
+        raise X.Unsupported('get_route: %d definitions of the CLTV budget, %d of the minimal contribution' % (len(end), len(divs)))
+    preds = [b for b in f.blocks if divs[0] in succ.get(b, [])]
+    if len(preds) != 1:
+        raise X.Unsupported('get_route: the minimal contribution is computed after %d blocks' % len(preds))
+    start, stop = preds[0], f.blocks[end[0]][1][4]
+
+    def param_copy(field):
+        k = PP.index(field)
+        out = []
+        for b, (body, t) in f.blocks.items():
+            for st in body:
+                if st[0] == 'assign' and st[1][0] == 'local' and st[2][0] == 'use' and st[2][1][0] == 'copy':
+                    pl = st[2][1][1]
+                    if pl[0] == 'field' and pl[2] == k and 'PaymentParameters' in str(pl[1]):
+                        out.append(st[1][1])
+        if len(set(out)) != 1:
+            raise X.Unsupported('get_route: %d locals hold payment_params.%s' % (len(set(out)), field))
+        return out[0]
+    max_total = E.sym('params.max_total_cltv_expiry_delta', 'u32')
+    max_paths = E.sym('params.max_path_count', 'u8')
+    final_cltv = E.sym('final_cltv_expiry_delta', 'u32')
+    final_value = E.sym('final_value_msat', 'u64')
+    allow_mpp = z3.Bool('allow_mpp')
+    init = {param_copy('max_total_cltv_expiry_delta'): max_total, param_copy('max_path_count'): max_paths,
+            _local(f, 'final_cltv_expiry_delta'): final_cltv, _local(f, 'final_value_msat'): final_value, _local(f, 'allow_mpp'): X.B(allow_mpp)}
+    E.depth += 1
+    run.run(start_bb=start, init=init, stop_bbs={stop})
+    E.depth -= 1
+    if stop not in run.stop_states:
+        raise X.Unsupported('get_route: derived-limit region not closed (%s)' % [w for g_, w in E.unsupported][:3])
+    g_stop, m_stop = E.merge_mem(run.stop_states[stop])
+    limit = m_stop[run.cells[lim_local]].t
+    minc = m_stop[run.cells[minc_local]].t
+    # what get_route has checked before it gets here: a non-zero value, at least one path, a budget above the final delta
+    pre = [final_value.t >= 1, max_paths.t >= 1, max_total.t > final_cltv.t]
+
+    def line(vals):
+        return scenario(10000, [chan(1, 100, 0, 2), chan(0, 101, 2, 1, cltv=70)], max_cltv=100 + 65536 * 40)
+    over = limit + final_cltv.t > max_total.t
+    b = Binding('route_validity_probe', [z3.IntVal(1)], [None, z3.If(over, 1, 0)], parse=mask_bit(64), line_fn=line, via_solver=True, domain=[(1, 1)])
+    S.prove(ids[0], E, pre, z3.Not(over),
+            'the CLTV budget the search works with plus the final hop\'s delta never exceeds the request\'s max_total_cltv_expiry_delta (so no returned path can)', [b],
+            bounds='all u32 budgets / deltas; region of get_route from the allow_mpp branch to the budget\'s definition')
+    S.prove(ids[1], E, pre, z3.If(allow_mpp, z3.And(minc * max_paths.t >= final_value.t, minc >= 1, (minc - 1) * max_paths.t < final_value.t), minc == final_value.t),
+            'the minimal contribution of a path is ceil(value / max_path_count) with MPP (so max_path_count paths of that size always cover the value, and no smaller bound is imposed) and the whole value without', [])
+    S.no_panic(ids[2], E, pre, 'no underflow (the budget exceeds the final delta: checked at the top of get_route)', [])
+    S.witness(ids[3], E, pre + [allow_mpp, max_total.t - final_cltv.t < 80])
+    S.validate(ids[4], E, b, n=1, extra_vectors=[(1,)])
+
+
+def merge_key(S, D):
+    """C16.h: the key get_route compares hop by hop when it merges "identical" paths at the end (step 8): the closures
+    handed to iter_equal.  Two selected paths may be folded into one only if they use the same channels in the same
+    direction AND lead through the same nodes (channel ids are not unique across peers: aliases)."""
+    ids = ['C16.h.merge_key', 'C16.h.witness', 'C16.h.validate']
+    if all(S._skip(o) for o in ids):
+        return
+    f = _get_route(S)
+    keys = set()
+    for b, (body, t) in f.blocks.items():
+        if t[0] == 'call' and re.match(r'(?:\w+::)*iter_equal::<', t[2]):
+            keys |= set(re.findall(r'\{closure@[^{}]*\}', t[2]))
+    ix = S.mir()
+    clos = [i for i in range(len(ix.offsets)) if re.match(r'fn get_route::\{closure#\d+\}\(', ix.offsets[i][0]) and any(k in ix.offsets[i][0] for k in keys)]
+    if not keys or len(clos) != len(keys):
+        raise X.Unsupported('get_route: %d closures handed to iter_equal, %d found' % (len(keys), len(clos)))
+    claims, Es = [], []
+    E = S.engine(unwind=1)
+    mem = {}
+    hid, tgt = z3.Int('hop.channel_id'), z3.Int('hop.target_node')
+    for rx, h in [(r"CandidateRouteHop::<'_>::id$", lambda *a: X.Adt('CandidateHopId', {0: X.I(hid, 'u64')})),
+                  (r"CandidateRouteHop::<'_>::target$", lambda *a: X.En('Option', 1, {1: [X.Adt('NodeId', {0: X.I(tgt, 'u64')})]}))]:
+        E.models.insert(0, (re.compile(rx), h))
+
+    def mentions(v, sym, depth=0):
+        if depth > 6:
+            return False
+        if isinstance(v, X.I):
+            return z3.is_expr(v.t) and v.t.eq(sym)
+        if isinstance(v, X.Tup):
+            return any(mentions(x, sym, depth + 1) for x in v.fs)
+        if isinstance(v, X.Adt):
+            return any(mentions(x, sym, depth + 1) for x in v.fs.values())
+        if isinstance(v, X.En):
+            return any(mentions(x, sym, depth + 1) for pl in v.vs.values() for x in pl if x is not None)
+        return False
+    ok = True
+    for i in clos:
+        c = ix.get(i)
+        hop = E.sym('hop', c.params[1][1], mem)
+        env = E.new_cell()
+        mem[env] = X.Clo(re.search(r'\{closure@[^{}]*\}', c.params[0][1]).group(0), [])
+        rv = S.call(E, c, [X.Ref(env), hop], mem)
+        ok = ok and mentions(rv, hid) and mentions(rv, tgt)
+
+    def line(vals):
+        # our two channels carry the same alias 100 (to A = node 2 and to B = node 3, 100 000 msat each); A and B each
+        # offer an unannounced channel with the same id 200 to the payee; 150 000 msat need both
+        return scenario(150000, [chan(1, 100, 0, 2, cap=100000), chan(1, 100, 0, 3, cap=100000), chan(2, 200, 2, 1), chan(2, 200, 3, 1)], max_paths=2, mpp=1)
+    b = Binding('route_validity_probe', [z3.IntVal(1)], [None, z3.IntVal(0 if ok else 1)], parse=mask_bit(4 | 2048), line_fn=line, via_solver=True, domain=[(1, 1)])
+    S.prove(ids[0], E, [], z3.BoolVal(ok),
+            'the value compared hop by hop before two selected paths are merged contains both the hop\'s channel id and the node it leads to', [b],
+            bounds='the %d closures get_route hands to iter_equal, each on an arbitrary hop' % len(clos))
+    S.witness(ids[1], E, [])
+    S.validate(ids[2], E, b, n=1, extra_vectors=[(1,)])
